@@ -36,132 +36,139 @@ def run(ctx):
     files = ["hypergraphx/generation/random.py", "hypergraphx/generation/scale_free.py", "hypergraphx/generation/activity_driven.py"]
     ctx.add_sites(res, ctx.sites(rules=("C-SIG", "K-ARG", "K-SIZE"), files=files))
     for d in ("random.random_hypergraph", "random.random_uniform_hypergraph", "random.add_random_edge", "random.add_random_edges"):
-        R.check_global_seeded(ctx, res, d)
-        M.check_none_tests(ctx, res, d)
+        with res.guard("R.check_global_seededctx, res, d"):
+            R.check_global_seeded(ctx, res, d)
+        with res.guard("M.check_none_testsctx, res, d"):
+            M.check_none_tests(ctx, res, d)
     eff = Effects(ctx)
     for d in ("random.random_shuffle", "random.random_shuffle_all_orders", "random.add_random_edge", "random.add_random_edges"):
-        check_pure(ctx, eff, res, d, roots=("hg",), consts={"inplace": False}, rule="E-INPLACE", detail_prefix="inplace=False:")
-        M.check_none_tests(ctx, res, d)
-        M.check_exclusion(ctx, res, d)
-    R.check_none_default_compare(ctx, res, "scale_free.scale_free_hypergraph")
+        with res.guard("check_purectx, eff, res, d, rootshg,, constsinplace: False, ruleEINPLA"):
+            check_pure(ctx, eff, res, d, roots=("hg",), consts={"inplace": False}, rule="E-INPLACE", detail_prefix="inplace=False:")
+        with res.guard("M.check_none_testsctx, res, d"):
+            M.check_none_tests(ctx, res, d)
+        with res.guard("M.check_exclusionctx, res, d"):
+            M.check_exclusion(ctx, res, d)
+    with res.guard("R.check_none_default_comparectx, res, scale_free.scale_free_hypergraph"):
+        R.check_none_default_compare(ctx, res, "scale_free.scale_free_hypergraph")
 
     # ---- D-SAMPLE
-    def sample_calls(v):
-        out = []
-        for n in walk_no_nested(v.fi.node):
-            if isinstance(n, ast.Call):
-                dn = R.extern_name(ctx.prog, v.fi, n)
-                if dn in ("random.sample", "numpy.random.choice"):
-                    out.append((n, dn))
-        return out
+    with res.guard("D-SAMPLE"):
+        def sample_calls(v):
+            out = []
+            for n in walk_no_nested(v.fi.node):
+                if isinstance(n, ast.Call):
+                    dn = R.extern_name(ctx.prog, v.fi, n)
+                    if dn in ("random.sample", "numpy.random.choice"):
+                        out.append((n, dn))
+            return out
 
-    for d, pool_ok in (
-        ("random.random_hypergraph", ("nodes",)),
-        ("random.add_random_edge", ("nodes",)),
-        ("random.add_random_edges", ("nodes",)),
-        ("random.random_shuffle", ("pool_nodes",)),
-        ("scale_free.scale_free_hypergraph", ("nodes",)),
-    ):
-        v = ctx.view(d)
+        for d, pool_ok in (
+            ("random.random_hypergraph", ("nodes",)),
+            ("random.add_random_edge", ("nodes",)),
+            ("random.add_random_edges", ("nodes",)),
+            ("random.random_shuffle", ("pool_nodes",)),
+            ("scale_free.scale_free_hypergraph", ("nodes",)),
+        ):
+            v = ctx.view(d)
+            f = v.fi.short
+            calls = [(n, dn) for n, dn in sample_calls(v) if not (dn == "random.sample" and n.args and isinstance(n.args[0], ast.Call) and norm(n.args[0].func) == "range" and d == "random.random_shuffle")]
+            calls = [(n, dn) for n, dn in calls if not (dn == "numpy.random.choice" and n.args and norm(n.args[0]) == "num_nodes")]
+            if not calls:
+                raise AnalysisError(f"{f}: sampling call not found")
+            for n, dn in calls:
+                if dn == "random.sample":
+                    pop, k = (n.args + [None, None])[:2]
+                    repl_ok = True
+                else:
+                    pop = n.args[0] if n.args else None
+                    kw = {x.arg: x.value for x in n.keywords}
+                    k = kw.get("size", n.args[1] if len(n.args) > 1 else None)
+                    repl = kw.get("replace", n.args[2] if len(n.args) > 2 else None)
+                    repl_ok = isinstance(repl, ast.Constant) and repl.value is False
+                res.check(repl_ok, "D-SAMPLE", f, norm(n), "without-replacement", "nodes of a hyperedge are drawn with replacement: a hyperedge can contain a node twice", loc(v.fi, n))
+                kk = v.kind(k) if k is not None else None
+                from ..kinds import _Top
+
+                good = k is not None and isinstance(k, ast.Name) and k.id == "size" and (kk == SIZE or isinstance(kk, _Top))
+                res.check(good, "D-SAMPLE", f, norm(n), "k=size", f"the sample size is `{norm(k) if k is not None else '?'}` ({kk!r}), not the requested hyperedge size", loc(v.fi, n))
+                res.check(pop is not None and norm(pop) in pool_ok, "D-SAMPLE", f, norm(n), "population", f"nodes are drawn from `{norm(pop) if pop is not None else '?'}` instead of {pool_ok}", loc(v.fi, n))
+        for d in ("random.random_hypergraph", "random.add_random_edge", "random.add_random_edges", "scale_free.scale_free_hypergraph"):
+            v = ctx.view(d)
+            defs = [n for n in walk_no_nested(v.fi.node) if isinstance(n, ast.Assign) and isinstance(n.targets[0], ast.Name) and n.targets[0].id == "nodes"]
+            ok = bool(defs) and all(norm(x.value) in ("list(range(num_nodes))", "list(hg.get_nodes())") for x in defs)
+            res.check(ok, "D-SAMPLE", v.fi.short, norm(defs[0]) if defs else "nodes = ...", "node-universe", "the node universe is not range(num_nodes) / the hypergraph's nodes", loc(v.fi, v.fi.node))
+        # activity driven
+        v = ctx.view("activity_driven.HOADmodel")
         f = v.fi.short
-        calls = [(n, dn) for n, dn in sample_calls(v) if not (dn == "random.sample" and n.args and isinstance(n.args[0], ast.Call) and norm(n.args[0].func) == "range" and d == "random.random_shuffle")]
-        calls = [(n, dn) for n, dn in calls if not (dn == "numpy.random.choice" and n.args and norm(n.args[0]) == "num_nodes")]
-        if not calls:
+        sc = [n for n in walk_no_nested(v.fi.node) if isinstance(n, ast.Call) and R.extern_name(ctx.prog, v.fi, n) == "random.sample"]
+        if not sc:
             raise AnalysisError(f"{f}: sampling call not found")
-        for n, dn in calls:
-            if dn == "random.sample":
-                pop, k = (n.args + [None, None])[:2]
-                repl_ok = True
-            else:
-                pop = n.args[0] if n.args else None
-                kw = {x.arg: x.value for x in n.keywords}
-                k = kw.get("size", n.args[1] if len(n.args) > 1 else None)
-                repl = kw.get("replace", n.args[2] if len(n.args) > 2 else None)
-                repl_ok = isinstance(repl, ast.Constant) and repl.value is False
-            res.check(repl_ok, "D-SAMPLE", f, norm(n), "without-replacement", "nodes of a hyperedge are drawn with replacement: a hyperedge can contain a node twice", loc(v.fi, n))
-            kk = v.kind(k) if k is not None else None
-            from ..kinds import _Top
-
-            good = k is not None and isinstance(k, ast.Name) and k.id == "size" and (kk == SIZE or isinstance(kk, _Top))
-            res.check(good, "D-SAMPLE", f, norm(n), "k=size", f"the sample size is `{norm(k) if k is not None else '?'}` ({kk!r}), not the requested hyperedge size", loc(v.fi, n))
-            res.check(pop is not None and norm(pop) in pool_ok, "D-SAMPLE", f, norm(n), "population", f"nodes are drawn from `{norm(pop) if pop is not None else '?'}` instead of {pool_ok}", loc(v.fi, n))
-    for d in ("random.random_hypergraph", "random.add_random_edge", "random.add_random_edges", "scale_free.scale_free_hypergraph"):
-        v = ctx.view(d)
-        defs = [n for n in walk_no_nested(v.fi.node) if isinstance(n, ast.Assign) and isinstance(n.targets[0], ast.Name) and n.targets[0].id == "nodes"]
-        ok = bool(defs) and all(norm(x.value) in ("list(range(num_nodes))", "list(hg.get_nodes())") for x in defs)
-        res.check(ok, "D-SAMPLE", v.fi.short, norm(defs[0]) if defs else "nodes = ...", "node-universe", "the node universe is not range(num_nodes) / the hypergraph's nodes", loc(v.fi, v.fi.node))
-    # activity driven
-    v = ctx.view("activity_driven.HOADmodel")
-    f = v.fi.short
-    sc = [n for n in walk_no_nested(v.fi.node) if isinstance(n, ast.Call) and R.extern_name(ctx.prog, v.fi, n) == "random.sample"]
-    if not sc:
-        raise AnalysisError(f"{f}: sampling call not found")
-    for n in sc:
-        res.check(len(n.args) == 2 and norm(n.args[0]) == "range(N)" and norm(n.args[1]) == "order", "D-SAMPLE", f, norm(n), "k=order", "the activated node does not draw `order` partners below N", loc(v.fi, n))
-    apps = [n for n in walk_no_nested(v.fi.node) if isinstance(n, ast.Call) and isinstance(n.func, ast.Attribute) and n.func.attr == "append" and norm(n.func.value) == "neigh_list"]
-    res.check(len(apps) == 1 and norm(apps[0].args[0]) == "node_i", "D-SAMPLE", f, norm(apps[0]) if apps else "neigh_list.append(node_i)", "plus-self", "the hyperedge is not the partners plus the activated node (size order+1)", loc(v.fi, v.fi.node))
-    hl = [n for n in walk_no_nested(v.fi.node) if isinstance(n, ast.Call) and isinstance(n.func, ast.Attribute) and n.func.attr == "append" and norm(n.func.value) == "hyperlinks"]
-    for n in hl:
-        ifs = v.enclosing_all(n, (ast.If,))
-        ok = any(norm(i.test) in ("len(neigh_list) == len(set(neigh_list))", "len(set(neigh_list)) == len(neigh_list)") for i in ifs)
-        res.check(ok, "D-SAMPLE", f, norm(n), "distinct", "hyperedges with a repeated node are emitted", loc(v.fi, n))
-        res.check(isinstance(n.args[0], ast.Tuple) and norm(n.args[0].elts[0]) == "t", "D-SAMPLE", f, norm(n), "time", "the emitted record does not carry the time step of its activation", loc(v.fi, n))
-    tl = [n for n in walk_no_nested(v.fi.node) if isinstance(n, ast.For) and norm(n.target) == "t"]
-    res.check(bool(tl) and all(norm(x.iter) == "range(time)" for x in tl), "D-SAMPLE", f, norm(tl[0].iter) if tl else "range(time)", "times", "times do not range over [0, time)", loc(v.fi, v.fi.node))
-
+        for n in sc:
+            res.check(len(n.args) == 2 and norm(n.args[0]) == "range(N)" and norm(n.args[1]) == "order", "D-SAMPLE", f, norm(n), "k=order", "the activated node does not draw `order` partners below N", loc(v.fi, n))
+        apps = [n for n in walk_no_nested(v.fi.node) if isinstance(n, ast.Call) and isinstance(n.func, ast.Attribute) and n.func.attr == "append" and norm(n.func.value) == "neigh_list"]
+        res.check(len(apps) == 1 and norm(apps[0].args[0]) == "node_i", "D-SAMPLE", f, norm(apps[0]) if apps else "neigh_list.append(node_i)", "plus-self", "the hyperedge is not the partners plus the activated node (size order+1)", loc(v.fi, v.fi.node))
+        hl = [n for n in walk_no_nested(v.fi.node) if isinstance(n, ast.Call) and isinstance(n.func, ast.Attribute) and n.func.attr == "append" and norm(n.func.value) == "hyperlinks"]
+        for n in hl:
+            ifs = v.enclosing_all(n, (ast.If,))
+            ok = any(norm(i.test) in ("len(neigh_list) == len(set(neigh_list))", "len(set(neigh_list)) == len(neigh_list)") for i in ifs)
+            res.check(ok, "D-SAMPLE", f, norm(n), "distinct", "hyperedges with a repeated node are emitted", loc(v.fi, n))
+            res.check(isinstance(n.args[0], ast.Tuple) and norm(n.args[0].elts[0]) == "t", "D-SAMPLE", f, norm(n), "time", "the emitted record does not carry the time step of its activation", loc(v.fi, n))
+        tl = [n for n in walk_no_nested(v.fi.node) if isinstance(n, ast.For) and norm(n.target) == "t"]
+        res.check(bool(tl) and all(norm(x.iter) == "range(time)" for x in tl), "D-SAMPLE", f, norm(tl[0].iter) if tl else "range(time)", "times", "times do not range over [0, time)", loc(v.fi, v.fi.node))
     # ---- D-POOL / D-REWIRE in random_shuffle
-    v = ctx.view("random.random_shuffle")
-    f = v.fi.short
-    def selected_edges_generators(gens):
-        """`for i in indices_to_replace for node in current_edges[i]`"""
-        its = [norm(g.iter) for g in gens]
-        return len(gens) >= 2 and its[0] == "indices_to_replace" and its[1] == f"current_edges[{norm(gens[0].target)}]"
+    with res.guard("D-POOL / D-REWIRE in random_shuffle"):
+        v = ctx.view("random.random_shuffle")
+        f = v.fi.short
+        def selected_edges_generators(gens):
+            """`for i in indices_to_replace for node in current_edges[i]`"""
+            its = [norm(g.iter) for g in gens]
+            return len(gens) >= 2 and its[0] == "indices_to_replace" and its[1] == f"current_edges[{norm(gens[0].target)}]"
 
-    n_sources = 0
-    for n in walk_no_nested(v.fi.node):
-        # (a) element stores  pool_nodes[node] = ... / += ...
-        if isinstance(n, (ast.Assign, ast.AugAssign)):
-            tg = n.targets if isinstance(n, ast.Assign) else [n.target]
-            for t in tg:
-                if isinstance(t, ast.Subscript) and norm(t.value) == "pool_nodes":
-                    n_sources += 1
-                    loops = v.enclosing_all(n, (ast.For,))
-                    its = [norm(l.iter) for l in loops]
-                    ok = len(loops) >= 2 and its[-1] == "indices_to_replace" and its[-2] == f"current_edges[{norm(loops[-1].target)}]"
-                    res.check(ok, "D-POOL", f, norm(n), "from-rewired-edges", f"the pool is filled while iterating {its}: replacement nodes can come from hyperedges that are not rewired", loc(v.fi, n))
-                # (b) whole-pool definitions
-                if isinstance(t, ast.Name) and t.id == "pool_nodes" and isinstance(n, ast.Assign):
-                    val = n.value
-                    if isinstance(val, ast.Dict) and not val.keys:
-                        continue  # empty initialisation
-                    if "pool_nodes" in {x.id for x in ast.walk(val) if isinstance(x, ast.Name)}:
-                        continue  # re-packing of the pool itself (keys -> array)
-                    n_sources += 1
-                    if isinstance(val, (ast.DictComp, ast.SetComp, ast.ListComp)):
-                        ok = selected_edges_generators(val.generators)
-                        res.check(ok, "D-POOL", f, norm(n), "from-rewired-edges", f"the pool is built from {[norm(g.iter) for g in val.generators]}, not from the hyperedges selected for rewiring: replacement nodes can come from hyperedges that are not rewired", loc(v.fi, n))
-                    else:
-                        res.violation("D-POOL", f, norm(n), "from-rewired-edges", "the pool is taken from another source than the hyperedges selected for rewiring", loc(v.fi, n))
-    if n_sources == 0:
-        raise AnalysisError(f"{f}: pool construction idiom not recognised")
-    sel = [n for n in walk_no_nested(v.fi.node) if isinstance(n, ast.Assign) and isinstance(n.targets[0], ast.Name) and n.targets[0].id == "current_edges"]
-    res.check(bool(sel) and all("hg.get_edges(size=size)" in norm(s.value) for s in sel), "D-REWIRE", f, norm(sel[0]) if sel else "current_edges = ...", "selection", "the rewired hyperedges are not exactly those of the requested size", loc(v.fi, v.fi.node))
-    lp = [n for n in walk_no_nested(v.fi.node) if isinstance(n, ast.For) and "enumerate(current_edges)" in norm(n.iter)]
-    if len(lp) != 1:
-        raise AnalysisError(f"{f}: replacement loop not recognised")
-    apps = [n for n in ast.walk(lp[0]) if isinstance(n, ast.Call) and isinstance(n.func, ast.Attribute) and n.func.attr == "append" and norm(n.func.value) == "new_edges"]
-    ids = {v.cfg_id(a) for a in apps}
-    head = v.cfg.by_ast[id(lp[0])]
-    one_each = all(not v.cfg.reaches_without(v.cfg_id(a), v.cfg_id(b), {head}) for a in apps for b in apps if a is not b)
-    res.check(len(apps) >= 2 and one_each, "D-REWIRE", f, "new_edges.append(...)", "one-per-edge", "an iteration can add two replacements (or none) for one hyperedge", loc(v.fi, lp[0]))
-    keep = [a for a in apps if norm(a.args[0]) == "edge"]
-    res.check(bool(keep), "D-REWIRE", f, "new_edges.append(edge)", "unselected-kept", "hyperedges that are not selected for rewiring are not kept unchanged", loc(v.fi, lp[0]))
-    for br, meths in (("inplace", ("remove_edges", "add_edges")),):
-        calls = [n for n in walk_no_nested(v.fi.node) if isinstance(n, ast.Call) and isinstance(n.func, ast.Attribute) and n.func.attr in meths]
-        rm = [c for c in calls if c.func.attr == "remove_edges"]
-        ad = [c for c in calls if c.func.attr == "add_edges"]
-        res.check(bool(rm) and all(norm(c.args[0]) == "current_edges" for c in rm), "D-REWIRE", f, norm(rm[0]) if rm else "remove_edges(current_edges)", "removes-listed", "other hyperedges than the listed ones of that size are removed", loc(v.fi, v.fi.node))
-        res.check(bool(ad) and all(norm(c.args[0]) == "new_edges" for c in ad), "D-REWIRE", f, norm(ad[0]) if ad else "add_edges(new_edges)", "adds-new", "the replacement list is not what gets added", loc(v.fi, v.fi.node))
+        n_sources = 0
+        for n in walk_no_nested(v.fi.node):
+            # (a) element stores  pool_nodes[node] = ... / += ...
+            if isinstance(n, (ast.Assign, ast.AugAssign)):
+                tg = n.targets if isinstance(n, ast.Assign) else [n.target]
+                for t in tg:
+                    if isinstance(t, ast.Subscript) and norm(t.value) == "pool_nodes":
+                        n_sources += 1
+                        loops = v.enclosing_all(n, (ast.For,))
+                        its = [norm(l.iter) for l in loops]
+                        ok = len(loops) >= 2 and its[-1] == "indices_to_replace" and its[-2] == f"current_edges[{norm(loops[-1].target)}]"
+                        res.check(ok, "D-POOL", f, norm(n), "from-rewired-edges", f"the pool is filled while iterating {its}: replacement nodes can come from hyperedges that are not rewired", loc(v.fi, n))
+                    # (b) whole-pool definitions
+                    if isinstance(t, ast.Name) and t.id == "pool_nodes" and isinstance(n, ast.Assign):
+                        val = n.value
+                        if isinstance(val, ast.Dict) and not val.keys:
+                            continue  # empty initialisation
+                        if "pool_nodes" in {x.id for x in ast.walk(val) if isinstance(x, ast.Name)}:
+                            continue  # re-packing of the pool itself (keys -> array)
+                        n_sources += 1
+                        if isinstance(val, (ast.DictComp, ast.SetComp, ast.ListComp)):
+                            ok = selected_edges_generators(val.generators)
+                            res.check(ok, "D-POOL", f, norm(n), "from-rewired-edges", f"the pool is built from {[norm(g.iter) for g in val.generators]}, not from the hyperedges selected for rewiring: replacement nodes can come from hyperedges that are not rewired", loc(v.fi, n))
+                        else:
+                            res.violation("D-POOL", f, norm(n), "from-rewired-edges", "the pool is taken from another source than the hyperedges selected for rewiring", loc(v.fi, n))
+        if n_sources == 0:
+            raise AnalysisError(f"{f}: pool construction idiom not recognised")
+        sel = [n for n in walk_no_nested(v.fi.node) if isinstance(n, ast.Assign) and isinstance(n.targets[0], ast.Name) and n.targets[0].id == "current_edges"]
+        res.check(bool(sel) and all("hg.get_edges(size=size)" in norm(s.value) for s in sel), "D-REWIRE", f, norm(sel[0]) if sel else "current_edges = ...", "selection", "the rewired hyperedges are not exactly those of the requested size", loc(v.fi, v.fi.node))
+        lp = [n for n in walk_no_nested(v.fi.node) if isinstance(n, ast.For) and "enumerate(current_edges)" in norm(n.iter)]
+        if len(lp) != 1:
+            raise AnalysisError(f"{f}: replacement loop not recognised")
+        apps = [n for n in ast.walk(lp[0]) if isinstance(n, ast.Call) and isinstance(n.func, ast.Attribute) and n.func.attr == "append" and norm(n.func.value) == "new_edges"]
+        ids = {v.cfg_id(a) for a in apps}
+        head = v.cfg.by_ast[id(lp[0])]
+        one_each = all(not v.cfg.reaches_without(v.cfg_id(a), v.cfg_id(b), {head}) for a in apps for b in apps if a is not b)
+        res.check(len(apps) >= 2 and one_each, "D-REWIRE", f, "new_edges.append(...)", "one-per-edge", "an iteration can add two replacements (or none) for one hyperedge", loc(v.fi, lp[0]))
+        keep = [a for a in apps if norm(a.args[0]) == "edge"]
+        res.check(bool(keep), "D-REWIRE", f, "new_edges.append(edge)", "unselected-kept", "hyperedges that are not selected for rewiring are not kept unchanged", loc(v.fi, lp[0]))
+        for br, meths in (("inplace", ("remove_edges", "add_edges")),):
+            calls = [n for n in walk_no_nested(v.fi.node) if isinstance(n, ast.Call) and isinstance(n.func, ast.Attribute) and n.func.attr in meths]
+            rm = [c for c in calls if c.func.attr == "remove_edges"]
+            ad = [c for c in calls if c.func.attr == "add_edges"]
+            res.check(bool(rm) and all(norm(c.args[0]) == "current_edges" for c in rm), "D-REWIRE", f, norm(rm[0]) if rm else "remove_edges(current_edges)", "removes-listed", "other hyperedges than the listed ones of that size are removed", loc(v.fi, v.fi.node))
+            res.check(bool(ad) and all(norm(c.args[0]) == "new_edges" for c in ad), "D-REWIRE", f, norm(ad[0]) if ad else "add_edges(new_edges)", "adds-new", "the replacement list is not what gets added", loc(v.fi, v.fi.node))
     res.discovery["random_shuffle_seed"] = "random_shuffle seeds numpy.random but also draws from the stdlib `random` module (indices_to_replace): outside C14's claims (same-seed reproducibility is claimed for random_hypergraph / random_uniform_hypergraph only)"
     res.assumptions += ["random.sample / numpy.random.choice(replace=False) return distinct elements (library)", "counts per size and distinctness of hyperedges are not decided"]
     return res
